@@ -2,7 +2,7 @@
 A module for all predicate dependencies in the AST
 """
 
-from collections import defaultdict
+from collections import Counter, defaultdict
 from functools import cache
 from itertools import chain, product
 from typing import Iterable, Iterator, Mapping
@@ -36,6 +36,7 @@ from ngo.utils.ast import (
     collect_ast,
     collect_bound_variables,
     global_vars_inside_body,
+    head_predicates,
     headderivable_predicates,
     literal_predicate,
     minimize_predicates,
@@ -62,6 +63,11 @@ class RuleDependency:
                     self.head2rules[head].append(stm)
             for p in chain(body_predicates(stm, SIGNS), minimize_predicates(stm, SIGNS)):
                 self.pred2stm[p.pred].append(stm)
+            # occurrences in the head that derive nothing are uses as well: negated head literals, conditions of elements
+            head_uses = Counter(p.pred for p in head_predicates(stm, SIGNS))
+            head_uses.subtract(Counter(p.pred for p in headderivable_predicates(stm)))
+            for pred in (+head_uses).elements():
+                self.pred2stm[pred].append(stm)
 
     def get_bodies(self, head: Predicate) -> list[AST]:
         """return all bodies of head predicate"""
